@@ -127,14 +127,17 @@ func c17(p *Prog, r *Report) {
 			if k.siteFn != nil {
 				site = shortName(k.siteFn)
 			}
-			key := shortName(fn) + " | " + k.String() + " | " + site
+			// the entry point is named without the receiver's pointer star: a
+			// method is the same obligation whichever receiver kind it has
+			entry := strings.Replace(shortName(fn), "(*", "(", 1)
+			key := entry + " | " + k.String() + " | " + site
 			if k.op != "" && k.op != "store" && !strings.HasSuffix(site, strings.TrimPrefix(k.op, "builtin.")) {
 				key += " | " + strings.ReplaceAll(k.op, modPath+"/", "")
 			}
 			// reviewed exceptions
 			exc := false
 			for _, ex := range c17Exceptions {
-				if ex.entry == shortName(fn) && ex.root == k.String() && ex.siteFn == site {
+				if strings.Replace(ex.entry, "(*", "(", 1) == entry && ex.root == k.String() && ex.siteFn == site {
 					exc = true
 				}
 			}
@@ -310,6 +313,30 @@ func wholeTail(p *Prog, v ssa.Value, depth int, seen map[ssa.Value]bool) bool {
 	case *ssa.Phi:
 		for _, e := range v.Edges {
 			if !wholeTail(p, e, depth+1, seen) {
+				return false
+			}
+		}
+		return true
+	case *ssa.Parameter:
+		// a parameter of an unexported function: whole-tail if every in-module
+		// call site passes a whole-tail value
+		fn := v.Parent()
+		if fn.Object() != nil && fn.Object().Exported() {
+			return false
+		}
+		idx := -1
+		for i, prm := range fn.Params {
+			if prm == v {
+				idx = i
+			}
+		}
+		sites := p.callSitesOf(fn)
+		if idx < 0 || len(sites) == 0 {
+			return false
+		}
+		for _, c := range sites {
+			args := c.Common().Args
+			if idx >= len(args) || !wholeTail(p, args[idx], depth+1, seen) {
 				return false
 			}
 		}
